@@ -15,6 +15,7 @@ import (
 	"encoding/json"
 	"errors"
 	"fmt"
+	"io"
 	"os"
 	"path/filepath"
 	"regexp"
@@ -24,6 +25,7 @@ import (
 	"sync/atomic"
 	"time"
 
+	"github.com/compose-spec/compose-go/v2/dotenv"
 	"github.com/compose-spec/compose-go/v2/template"
 	"github.com/compose-spec/compose-go/v2/types"
 
@@ -477,8 +479,19 @@ func (o c16OracleArgs) toArgs(discard bool) c16Args {
 		}
 		s.LabelFiles = append(s.LabelFiles, l.Path)
 	}
-	// a sibling service with its own files, environment and labels over the same keys: nothing of it may show up in `s`
+	// a sibling service with its own files, environment and labels over the same keys: nothing of it may show up in `s`.
+	// After its own file (which defines every key differently) it lists **the same env / label files as `s`**, so that a
+	// file shared by two services is read in two different contexts: its cross-references must be resolved per service
+	// (`project_env_ok`: no state shared between services), whichever service Go's map range visits first.
 	sib := c16Service{Name: "sibling", EnvFiles: []c16EnvFile{{Path: "sibling.env", Required: true}}, LabelFiles: []string{"sibling.lbl"}}
+	for _, l := range o.EnvLayers {
+		sib.EnvFiles = append(sib.EnvFiles, c16EnvFile{Path: l.listed(), Required: false})
+	}
+	for _, l := range o.LabelLayers {
+		if l.Present {
+			sib.LabelFiles = append(sib.LabelFiles, l.Path)
+		}
+	}
 	var sl []c16Line
 	for _, k := range append(append([]string{}, o.Keys...), "SIBLING") {
 		sl = append(sl, c16Assign(k, c16Lit("leak."+k)))
@@ -653,10 +666,10 @@ func c16JudgeOracle(args, real, drv json.RawMessage) *core.Verdict {
 		}
 		if spec.Err != nil {
 			if out.Err == nil {
-				return core.Fail("missing-required-file-accepted:"+via, "a required env file / a label file is missing but the result is a project")
+				return core.Fail("failing-file-accepted:"+*spec.Err+":"+via, "the specification says the load fails ("+*spec.Err+": a required env file / a label file is missing, or a line of a file fails) but the result is a project")
 			}
 			if *out.Err != *spec.Err {
-				return core.Fail("missing-file-error-class:"+via+":"+*out.Err, "missing file reported as "+*out.Err)
+				return core.Fail("failing-file-error-class:"+via+":"+*spec.Err+"/"+*out.Err, "the load must fail as "+*spec.Err+" (first failing file) but fails as "+*out.Err)
 			}
 			continue
 		}
@@ -822,7 +835,30 @@ func c16Judge(j func(args, real, drv json.RawMessage) *core.Verdict) func(args, 
 	}
 }
 
+// c16kv is a private env_file format registered in the (process-global) dotenv registry so that registered formats are
+// exercised on the real code; the model's copy is `kvParser` (Model/EnvLayers.lean).  Every line `K=V` is taken
+// literally at its first `=`, a line without `=` is inherited from the lookup.  The name `raw` stays unregistered.
+func c16kvParser(r io.Reader, _ string, lookup func(string) (string, bool)) (map[string]string, error) {
+	b, err := io.ReadAll(r)
+	if err != nil {
+		return nil, err
+	}
+	out := map[string]string{}
+	for _, line := range strings.Split(string(b), "\n") {
+		if line == "" {
+			continue
+		}
+		if k, v, ok := strings.Cut(line, "="); ok {
+			out[k] = v
+		} else if v, ok := lookup(line); ok {
+			out[line] = v
+		}
+	}
+	return out, nil
+}
+
 func init() {
+	dotenv.RegisterFormat("c16kv", c16kvParser)
 	core.Register("c16.resolve", &core.CheckDef{
 		Timeout:  c16Timeout,
 		Real:     c16Guard(c16RealResolve),
